@@ -189,7 +189,7 @@ impl Watch {
         }
 
         // C14: a frame within the local limit must not be rejected as too large
-        if evs.iter().any(|e| e.err_code() == Some(E_TOO_LARGE)) {
+        if evs.iter().any(|e| matches!(e, Ev::Send { pkt, .. } if pkt.kind == DISCONNECT && pkt.rc == Some(0x95))) {
             self.flag(&["C14"], "within-limit-frame-rejected-as-too-large", format!("{what}: {} bytes, local Maximum Packet Size {:?}: {}", frame.len(), self.m.mps_recv, evs_short(evs)));
             return;
         }
